@@ -105,6 +105,10 @@ func Generate(ctx context.Context, wd string, env []string, patterns []string, o
 		}
 		copyNonInjectorDecls(g, injectorFiles, pkg.TypesInfo)
 		goSrc := g.frame(opts.Tags)
+		if len(goSrc) == 0 {
+			// No injectors in this package: nothing to write, header or not.
+			continue
+		}
 		if len(opts.Header) > 0 {
 			goSrc = append(opts.Header, goSrc...)
 		}
